@@ -12,6 +12,7 @@
 (*   e0     f -> set of entities (representations) f is sent with when nothing  *)
 (*               fails; {} = f is not sent in the fault-free run                *)
 (* Per fetch: pending -> skipped                      (errored dependency)      *)
+(*            ... -> loaded -> partial                (data + errors)           *)
 (*            pending -> prepared -> noload -> empty  (nothing to ask for)      *)
 (*            pending -> prepared -> inflight -> loaded|loadedErr -> merged|failed *)
 (* The same actions are used by the model checker (MC_FetchExec), the           *)
@@ -19,11 +20,15 @@
 (* the validator of traces recorded from the real loader (Trace_FetchExec).     *)
 EXTENDS FetchTree
 
-Kinds == {"Transport", "Non2xxNonJSON", "EmptyBody", "NonJSON", "ErrorsNoData", "DataNull", "WrongEntityCount"}
+Kinds == {"Transport", "Non2xxNonJSON", "EmptyBody", "NonJSON", "ErrorsNoData", "DataNull", "WrongEntityCount",
+          "PartialData", "Non2xxJSON"}
+\* PartialData: 200 with data AND errors - the answer is merged, its errors are forwarded; what the subgraph nulled is missing.
+\* Non2xxJSON:  a 5xx status with a complete, valid GraphQL body.  GraphQL-over-HTTP lets a client trust such a body,
+\*              so the gateway may use it (merged, nothing reported) or reject it (failed, reported) - but consistently.
 \* failures for which the data source returns a Go error (res.err # nil): only these are
 \* recorded in Loader.erroredFetchIDs; every other kind is detected in mergeResult.
 Hard == {"Transport"}
-Terminal == {"skipped", "empty", "failed", "merged"}
+Terminal == {"skipped", "empty", "failed", "merged", "partial"}
 
 VARIABLES inst, st, errored, ents, sent, rep
 vars == <<inst, st, errored, ents, sent, rep>>
@@ -93,8 +98,11 @@ LoadEnd(f) ==
 \* mergePhase [db]: k = number of entries mergeResult added to the errors of the response
 Merge(f, k) ==
   /\ st[f] \in {"loaded", "loadedErr", "noload"}
-  /\ st' = [st EXCEPT ![f] = IF st[f] = "noload" THEN "empty"
-                              ELSE IF inst.fault[f] = "ok" THEN "merged" ELSE "failed"]
+  /\ st' = [st EXCEPT ![f] = CASE st[f] = "noload" -> "empty"
+                                [] inst.fault[f] = "ok" -> "merged"
+                                [] inst.fault[f] = "PartialData" -> "partial"
+                                [] inst.fault[f] = "Non2xxJSON" -> (IF k = 0 THEN "merged" ELSE "failed")
+                                [] OTHER -> "failed"]
   /\ rep' = [rep EXCEPT ![f] = k]
   /\ UNCHANGED <<inst, errored, ents, sent>>
 
@@ -108,6 +116,7 @@ StepOf(f) ==
   \/ LoadEnd(f)
   \/ (st[f] = "noload" /\ Merge(f, 0))
   \/ (st[f] \in {"loaded", "loadedErr"} /\ inst.fault[f] = "ok" /\ Merge(f, 0))
+  \/ (st[f] \in {"loaded", "loadedErr"} /\ inst.fault[f] = "Non2xxJSON" /\ Merge(f, 0))
   \/ (st[f] \in {"loaded", "loadedErr"} /\ inst.fault[f] # "ok" /\ \E k \in 1..2 : Merge(f, k))
 
 Next == \E f \in Ids : StepOf(f)
@@ -133,15 +142,15 @@ SkipJustified ==
   \A f \in Ids : st[f] = "skipped" => \E a \in Anc(f) : st[a] \in {"skipped", "loadedErr", "failed"} /\ a \in errored
 
 \* every failed request is reported at least once; a successful one reports nothing
-ErrorReportedPerFetch == \A f \in Ids : (st[f] = "failed" => rep[f] >= 1) /\ (st[f] \in {"merged", "empty"} => rep[f] = 0)
-Failed == {f \in Ids : st[f] = "failed"}
+ErrorReportedPerFetch == \A f \in Ids : (st[f] \in {"failed", "partial"} => rep[f] >= 1) /\ (st[f] \in {"merged", "empty"} => rep[f] = 0)
+Failed == {f \in Ids : st[f] \in {"failed", "partial"}}
 ErrorReported == (AllFetchesDone /\ Failed # {}) => \E f \in Failed : rep[f] >= 1
 
 \* dependencies are merged (or have failed for good) before a fetch reads the data
 DepsSettled == \A f \in Ids : st[f] # "pending" => \A d \in inst.deps[f] : Done(d)
 
 TypeOK ==
-  /\ st \in [Ids -> {"pending", "skipped", "prepared", "noload", "empty", "inflight", "loaded", "loadedErr", "failed", "merged"}]
+  /\ st \in [Ids -> {"pending", "skipped", "prepared", "noload", "empty", "inflight", "loaded", "loadedErr", "failed", "merged", "partial"}]
   /\ errored \subseteq Ids
   /\ sent \subseteq Ids
 
